@@ -319,18 +319,24 @@ class AdaptationManager(HasTraits):
         edges = []
 
         for from_protocol_name, offers in self._adaptation_offers.items():
-            from_protocol = offers[0].from_protocol
-            mro_distance = self.mro_distance_to_protocol(
-                current_protocol, from_protocol
-            )
+            # Offers are grouped by the *name* of their from_protocol, and
+            # distinct protocols can share a name: look at each protocol.
+            mro_distances = {}
 
-            if mro_distance is not None:
+            for offer in offers:
+                from_protocol = offer.from_protocol
+                if from_protocol not in mro_distances:
+                    mro_distances[from_protocol] = (
+                        self.mro_distance_to_protocol(
+                            current_protocol, from_protocol
+                        )
+                    )
+                mro_distance = mro_distances[from_protocol]
 
-                for offer in offers:
-                    # Avoid cycles by checking that we did not consider this
-                    # offer in this path.
-                    if offer not in path:
-                        edges.append((mro_distance, offer))
+                # Avoid cycles by checking that we did not consider this
+                # offer in this path.
+                if mro_distance is not None and offer not in path:
+                    edges.append((mro_distance, offer))
 
         return edges
 
